@@ -14,6 +14,7 @@ from common import sx, q, ok, err, cname, cnum
 from units import BLOCK
 from props import c12, c13
 from props import c18_sweep as sweep
+from props import sigcheck
 
 ID = 'C18'
 LEVEL = 'proof'
@@ -594,6 +595,40 @@ def check_module_state(ctx, before):
     ctx.streams['module-state'] = dict(cases=len(after) + n, deviations=bad)
 
 
+def check_generated_defaults(ctx):
+    """the list of shared mutable defaults GENERATED from the source (tools/py2v.py part 5, Gen/Signatures.v mutable_defaults) equals the live
+    inspect enumeration and the ast enumeration check_source_defaults walks: no default container of the package escapes the inspection"""
+    table = sigcheck.load_table()
+    if table is None:
+        ctx.notes.append('generated-defaults: no generated table (translator status %s); the ast enumeration of c18_sweep stands alone'
+                         % json.dumps(ctx.gen_status.get('Signatures', {}))[:200])
+        return
+    only_gen, only_live, both = sigcheck.defaults_vs_live(table)
+    swept = {(e['module'], e['qualname'], e['param']) for e in sweep.source_mutable_defaults(common.REPO) if '<locals>' not in e['qualname']}
+    gen = set(only_gen) | set(both)
+    problems = []
+    if only_gen:
+        problems.append('in the generated table but not a live mutable default: %s' % only_gen[:5])
+    if only_live:
+        # a default container that is not a display in the source (e.g. a module-level constant used as the default): behaviour is the
+        # same, the live object is fingerprinted by module_state all the same - recorded, not an alarm
+        ctx.notes.append('generated-defaults: live mutable defaults that are not displays in the source (covered by the module-state '
+                         'fingerprints only): %s' % only_live[:10])
+    direct = {(e['module'], e['qualname'], e['param']) for e in table['mutable_defaults'] if not e['local'] and not e.get('via')}
+    if swept != direct:
+        problems.append('generated table and the ast enumeration of the sweep differ: %s' % sorted(swept ^ direct)[:5])
+    if problems:
+        ctx.broken('signatures-defaults', 'the generated list of shared mutable default arguments does not match the library: ' + '; '.join(problems))
+    ctx.evaluations += len(both)
+    ctx.dist['mutable defaults in the generated table (= live inspect enumeration)'] = len(both)
+    ctx.streams['generated-defaults'] = dict(cases=len(both), deviations=len(only_gen), live_only=['%s.%s(%s)' % e for e in only_live],
+                                             table=['%s.%s(%s=%s)' % (e['module'], e['qualname'], e['param'], e['source'])
+                                                    for e in table['mutable_defaults']],
+                                             # methods other than __init__ that write self.<attr> (assignment / in-place update), read from the source:
+                                             # the instance state a call can leave behind - what the history oracle of the sweep has to cover
+                                             mutation_sites=['%s.%s: self.%s (%s)' % (c['name'], m, a, w) for c in table['classes'] for m, a, w in c['mutations']])
+
+
 def corpus():
     for p in sorted(glob.glob(os.path.join(common.VERIF, 'corpus', ID, '*.json'))):
         yield json.load(open(p))
@@ -619,6 +654,7 @@ def explore(ctx, widen=1):
         check_seeded_hare(ctx, _hare_case(ctx.rng))
     run_sweep(ctx, ctx.n(10, 60) * (2 if widen > 1 else 1), first_seed=ctx.seed * 1000)
     check_module_state(ctx, before)
+    check_generated_defaults(ctx)
 
 
 def replay_sweep(ctx, case):
